@@ -180,6 +180,28 @@ def replay_then_resume(prog, sched, ext_menu=(), timeout_probe=False, resumes=1,
         s.close()
 
 
+def replay_then_reuse(prog, sched, ext_menu=()):
+    """Execute `sched`, let the run end, then start a follow-up run on the SAME context object (workflow.run(ctx=ctx,
+    start_event=...)) and drive it to its end.  Returns the whole trace, or None when the first run did not end by itself."""
+    s = en.EngineSystem(prog)
+    try:
+        s.start("s0")
+        for c in sched:
+            s.apply(c)
+        if s.outcome is None or s.outcome["kind"] not in ("result", "failed"):
+            return None
+        try:
+            s.reuse("s1")
+            s.log({"e": "reused", "ok": True})
+        except Exception as ex:  # noqa: BLE001
+            s.log({"e": "reused", "ok": False, "err": type(ex).__name__ + ":" + str(ex)[:120]})
+            return s.trace
+        run_to_end(s)
+        return s.trace
+    finally:
+        s.close()
+
+
 def _summary(s):
     """What C12/C13 compare: outcome, state-store contents, completed step inputs."""
     store = s.store_dict()
